@@ -52,7 +52,7 @@ theorem tracker_refines_spec (s : Bytes) (isn : Nat) (h : List SegD)
   have hk := AInv_frontier hinv
   have hall := chunks_all_ok (isn := isn) hinv hs'
   have hlt := AInv_sumSizes_lt hinv hs
-  unfold specOK Tracker.obs
+  unfold specOK specOKat Tracker.obs
   simp only [hk, hsim.seq, hsim.buf, hsim.payload, hinv.1.payload_eq]
   have ht : (runModel isn h).total = sumSizes (mapW isn (runAbstract false h).buf) := by
     rw [htot.2, hsim.buf, sumSizes_mapW]
@@ -218,7 +218,7 @@ theorem legacy_refines_spec (s : Bytes) (isn : Nat) (h : List SegD)
   have hinv := runAbstract_AInv (tie := true) hh
   have hk := AInv_frontier hinv
   have hall := chunks_all_ok (isn := isn) hinv hs
-  unfold specOK
+  unfold specOK specOKat
   simp only [hk, hsim.seq, hsim.frags, hsim.payload, hinv.1.payload_eq]
   unfold sumSizes W at *
   simp only [beq_self_eq_true, Bool.true_and, Bool.and_true]
